@@ -166,12 +166,16 @@ TARGETS = {
         dict(name="twin f_mod", maker="lambda: MT.f_mod", sig="MT.f_mod", selfargs="[]"),
         dict(name="twin Kls.m_inst", maker="lambda: TOBJ.m_inst", sig="MT.Kls.m_inst", selfargs="[TOBJ]"),
         dict(name="twin Kls.m_static", maker="lambda: MT.Kls.m_static", sig="MT.Kls.__dict__['m_static'].__func__", selfargs="[]"),
+        # ... and of the same FILE loaded a second time under another module name (same file name, lines and names)
+        dict(name="again f_mod", maker="lambda: MA.f_mod", sig="MA.f_mod", selfargs="[]"),
+        dict(name="again Kls.m_inst", maker="lambda: AOBJ.m_inst", sig="MA.Kls.m_inst", selfargs="[AOBJ]"),
     ],
     "G": [
         dict(name="g_mod", maker="lambda: M.g_mod", sig="M.g_mod", selfargs="[]"),
         dict(name="Kls.g_meth", maker="lambda: OBJ.g_meth", sig="M.Kls.g_meth", selfargs="[OBJ]"),
         dict(name="nested rec_gen", maker="lambda: M._NESTED['gen']", sig="M._NESTED['gen']", selfargs="[]"),
         dict(name="twin g_mod", maker="lambda: MT.g_mod", sig="MT.g_mod", selfargs="[]"),
+        dict(name="again g_mod", maker="lambda: MA.g_mod", sig="MA.g_mod", selfargs="[]"),
         dict(name="g_typescoro", maker="lambda: M.g_typescoro", sig="M.g_typescoro", selfargs="[]"),
     ],
     "C": [
